@@ -338,6 +338,52 @@ def run(prog, chk):
                 chk.ok("C16.f", f, "line increment at line %s paired with lineStart" % f.nodes[s.node]["l"], f.where(s.node), "PAIRF", evals=2)
             else:
                 chk.bad("C16.f", f, "line-without-linestart", f.where(s.node), "pos.line is incremented without re-seating pos.lineStart: the reported column counts from the previous line")
+    # a rewind of the cursor restores the line accounting with it
+    chk.rule("C16.f2", "PAIRF: wherever the cursor is rewound to a saved position after calls that may count line breaks, the line number and line "
+                       "start are restored with it (whole-position assignment, or all three fields)", floor=1)
+    counters = set()
+    for g in prog.functions.values():
+        if g.file.endswith("Xml.cpp") and any(q.no_casts(g.r(s.lhs)) == "this->pos.line" and s.op != "=" for s in q.stores(g)):
+            counters.add(g.gname)
+    for f in [pe, pa, pt, rt]:
+        defs = q.local_defs(f)
+        snaps = {}   # decl id -> (name, what) for locals initialised from this->pos or this->pos.pos
+        for n in f.nodes:
+            if n["k"] != "DeclStmt":
+                continue
+            for d in n["decls"]:
+                if "init" not in d:
+                    continue
+                ini = f.strip(d["init"])
+                if f.nodes[ini]["k"] == "CXXConstructExpr" and f.nodes[ini].get("copyctor") and f.nodes[ini]["c"]:
+                    ini = f.strip(f.nodes[ini]["c"][0])
+                t = q.no_casts(f.r(ini))
+                if t in ("this->pos", "this->pos.pos"):
+                    snaps[d["id"]] = (d["n"], t, n["i"])
+        for sid, (nm, what, dnode) in snaps.items():
+            # rewinds from this snapshot
+            rew = []
+            for s in q.stores(f):
+                lt = q.no_casts(f.r(s.lhs))
+                rt_ = q.no_casts(f.r(s.rhs)) if s.rhs is not None else ""
+                if lt == "this->pos" and rt_ == nm:
+                    rew.append((s, "whole"))
+                elif lt == "this->pos.pos" and rt_ in (nm, nm + ".pos"):
+                    rew.append((s, "pointer"))
+            for s, kind in rew:
+                between = [c for c in q.calls(f) if f.nodes[c].get("callee", "") in counters or any(f.nodes[c].get("callee", "").endswith(x.split("::")[-1]) and "Xml" in f.nodes[c].get("callee", "") for x in counters)]
+                between = [c for c in between if q.reaches(f, dnode, c) and q.reaches(f, c, s.node)]
+                if kind == "whole" or not between:
+                    chk.ok("C16.f2", f, "rewind to `%s` restores the whole position" % nm, f.where(s.node), "struct assignment" if kind == "whole" else "no line-counting call in between", evals=2)
+                    continue
+                ln = [x.node for x in q.stores(f) if q.no_casts(f.r(x.lhs)) == "this->pos.line" and x.op == "="]
+                ls = [x.node for x in q.stores(f) if q.no_casts(f.r(x.lhs)) == "this->pos.lineStart" and x.op == "="]
+                if ln and ls and C.paths_all_pass(f, f.node_pos(s.node), q.pos_of(f, ln)) and C.paths_all_pass(f, f.node_pos(s.node), q.pos_of(f, ls)):
+                    chk.ok("C16.f2", f, "rewind of pos.pos paired with line and lineStart", f.where(s.node), "PAIRF", evals=3)
+                else:
+                    chk.bad("C16.f2", f, "cursor-rewound-without-line-accounting", f.where(s.node),
+                            "the cursor is set back to the saved `%s` after `%s` may have counted line breaks, but pos.line / pos.lineStart keep their advanced values: "
+                            "the same line breaks are counted again and reported lines lie beyond the end of the text" % (nm, f.r(between[0])[:30]))
     # line breaks skipped without accounting (the processing-instruction loop): findOneOf stops at \r \n and steps over them
     for f in (pa,):
         fo = [c for c in q.calls(f) if f.nodes[c].get("callee") == "String::findOneOf"]
